@@ -3,6 +3,7 @@ package checks
 import (
 	"encoding/json"
 	"fmt"
+	"io/fs"
 	"net/url"
 	"os"
 	"os/exec"
@@ -172,7 +173,8 @@ func (r *c11reader) serve(u *url.URL) ([]byte, error) {
 	}
 	content, ok := r.universe[key]
 	if !ok {
-		return nil, fmt.Errorf("no such document: %s", u)
+		// what a file system (and the default reader) answers for a missing file
+		return nil, &fs.PathError{Op: "open", Path: u.String(), Err: fs.ErrNotExist}
 	}
 	// the served document contributes its references to the legal set
 	var tree any
@@ -472,12 +474,7 @@ func c11CaseAt(c *core.Ctx, name, rootLocation, rootDoc string, files map[string
 		universe[k] = v
 	}
 	universe[rootKey] = rootDoc // the root wins when a target shares its location
-	type entry struct {
-		name string
-		load func(l *openapi3.Loader) (*openapi3.T, error)
-		seed bool
-	}
-	entries := []entry{
+	entries := []c11entry{
 		{"LoadFromFile", func(l *openapi3.Loader) (*openapi3.T, error) {
 			if rootLoc.Scheme != "" {
 				return l.LoadFromURI(rootLoc)
@@ -486,10 +483,63 @@ func c11CaseAt(c *core.Ctx, name, rootLocation, rootDoc string, files map[string
 		}, false},
 		{"LoadFromDataWithPath", func(l *openapi3.Loader) (*openapi3.T, error) { return l.LoadFromDataWithPath([]byte(rootDoc), rootLoc) }, true},
 		{"LoadFromData", func(l *openapi3.Loader) (*openapi3.T, error) { return l.LoadFromData([]byte(rootDoc)) }, true},
+		// a document the caller unmarshalled, handed over for resolution only
+		{"ResolveRefsIn", func(l *openapi3.Loader) (*openapi3.T, error) {
+			doc := &openapi3.T{}
+			if err := yaml.Unmarshal([]byte(rootDoc), doc); err != nil {
+				return nil, err
+			}
+			return doc, l.ResolveRefsIn(doc, rootLoc)
+		}, true},
 	}
+	c11Universe(c, name, rootLocation, rootLoc, rootKey, rootDoc, universe, entries, "")
+	// faults: one referenced file at a time is missing; whatever the loader does about it, it may only try locations that a
+	// reference of an already-read document resolves to
+	fkeys := make([]string, 0, len(files))
+	for k := range files {
+		if k != rootKey {
+			fkeys = append(fkeys, k)
+		}
+	}
+	sort.Strings(fkeys)
+	if len(fkeys) > 3 {
+		fkeys = fkeys[:3]
+	}
+	for _, gone := range fkeys {
+		u2 := map[string]string{}
+		for k, v := range universe {
+			if k != gone {
+				u2[k] = v
+			}
+		}
+		// a file of the same name next to the root: what a "helpful" second attempt would find
+		if i := strings.LastIndex(gone, "/"); i >= 0 && rootLoc.Scheme == "" {
+			decoy := "://|" + path.Join(path.Dir(rootLoc.Path), gone[i+1:])
+			if _, taken := u2[decoy]; !taken && decoy != gone {
+				u2[decoy] = universe[gone]
+			}
+		}
+		c11Universe(c, name, rootLocation, rootLoc, rootKey, rootDoc, u2, entries, "missing:"+gone)
+	}
+}
+
+type c11entry struct {
+	name string
+	load func(l *openapi3.Loader) (*openapi3.T, error)
+	seed bool
+}
+
+func c11Universe(c *core.Ctx, name, rootLocation string, rootLoc *url.URL, rootKey, rootDoc string, universe map[string]string, entries []c11entry, fault string) {
 	for _, e := range entries {
 		for _, allowed := range []bool{false, true} {
+			if fault != "" && !allowed {
+				continue
+			}
 			desc := fmt.Sprintf("%s entry=%s allowed=%v", name, e.name, allowed)
+			if fault != "" {
+				desc += " fault=" + fault
+				c.Cover("faults", "one referenced file missing")
+			}
 			c.BeginLazy(func() string { return desc })
 			rd := &c11reader{universe: universe, root: rootKey, allowed: allowed, legal: map[string]bool{}}
 			if e.seed {
@@ -543,14 +593,27 @@ func c11CaseAt(c *core.Ctx, name, rootLocation, rootDoc string, files map[string
 				if len(parts) == 2 {
 					form = parts[1]
 				}
+				if fault != "" {
+					form += " (one referenced file missing)"
+				}
 				c.Violate(map[string]string{"kind": kind, "entry": e.name, "case": parts[0], "form": form}, w, fmt.Sprintf("%s\n%s: %s\nall reads: %s", desc, rd.why, rd.bad, strings.Join(rd.reads, " ")))
 			}
 			if c.WantSample() && allowed && len(rd.reads) >= 2 {
 				c.Sample(map[string]any{"case": name, "entry": e.name, "allowed": allowed, "reads": rd.reads})
 			}
-			if allowed && pi == nil {
+			if allowed && pi == nil && fault == "" {
 				// the same Loader, the switch turned off again: what it learnt while references were allowed must not be followed now
-				for _, e2 := range entries {
+				for i2, e2 := range entries {
+					if i2 > 0 {
+						// every second step starts from a Loader whose LAST use was the load with references allowed
+						l = openapi3.NewLoader()
+						l.IsExternalRefsAllowed = true
+						rdp := &c11reader{universe: universe, root: rootKey, allowed: true, legal: map[string]bool{}}
+						l.ReadFromURIFunc = func(_ *openapi3.Loader, u *url.URL) ([]byte, error) { return rdp.serve(u) }
+						if pi := core.Guard(func() { e.load(l) }); pi != nil {
+							continue
+						}
+					}
 					rd2 := &c11reader{universe: universe, root: rootKey, allowed: false, legal: map[string]bool{}}
 					l.IsExternalRefsAllowed = false
 					l.ReadFromURIFunc = func(_ *openapi3.Loader, u *url.URL) ([]byte, error) { return rd2.serve(u) }
